@@ -19,7 +19,7 @@ pub enum Kind {
     U32,
     U64,
     Bool,
-    /// 128-bit integers; the simulator only generates values that fit 64 bits (sign-extended)
+    /// 128-bit integers: the 64 stored bits are a *code* for the 128-bit pattern, see [`wide`]
     I128,
     U128,
 }
@@ -47,6 +47,191 @@ impl Kind {
     }
     pub fn code(self) -> u64 {
         self as u64
+    }
+}
+
+/// 128-bit leaves in 64 bits.
+///
+/// Every leaf of the model is a `u64`. For the two 128-bit kinds that word is a code for the
+/// 128-bit two's-complement pattern (a `u128` is handled as the `i128` with the same bits):
+///
+/// * top two bits equal (`00`/`11`): the word itself, sign-extended (|v| < 2^62);
+/// * `01`: `SPECIALS[idx] + off` with `off` in -128..128: the neighbourhoods of 2^53, 2^63, 2^64,
+///   2^96, 2^127 and their negatives, where truncation and float detours change a value;
+/// * `10`: `x * K mod 2^128` for the low 62 bits `x` and an odd `K`: a bijection, so these codes
+///   are spread uniformly over the whole 128-bit space and each decodes to a distinct value.
+///
+/// `encode` is the inverse wherever one exists. A pattern with no code (what a defective
+/// implementation may produce) gets a hash in the `01` class with bit 61 set, which no generated
+/// leaf carries, so it compares unequal to every expected leaf.
+pub mod wide {
+    const K: u128 = 0x9E37_79B9_7F4A_7C15_F39C_C060_5CED_C835;
+    const fn inv(k: u128) -> u128 {
+        // Newton iteration for the inverse of an odd number modulo 2^128
+        let mut x: u128 = k;
+        let mut i = 0;
+        while i < 7 {
+            x = x.wrapping_mul(2u128.wrapping_sub(k.wrapping_mul(x)));
+            i += 1;
+        }
+        x
+    }
+    const KINV: u128 = inv(K);
+    pub const SPECIALS: [i128; 12] = [
+        1 << 63,
+        -(1 << 63),
+        1 << 64,
+        -(1 << 64),
+        i128::MAX - 127,
+        i128::MIN + 128,
+        1 << 53,
+        -(1 << 53),
+        1 << 96,
+        -(1 << 96),
+        1 << 62,
+        -(1 << 62),
+    ];
+    const UNREP: u64 = 1 << 61;
+
+    pub fn fits62(v: i128) -> bool {
+        v >= -(1i128 << 62) && v < (1i128 << 62)
+    }
+
+    pub fn encode(v: i128) -> u64 {
+        if fits62(v) {
+            return v as i64 as u64;
+        }
+        for (i, s) in SPECIALS.iter().enumerate() {
+            if let Some(d) = v.checked_sub(*s) {
+                if (-128..128).contains(&d) {
+                    return (1u64 << 62) | ((i as u64) << 8) | (d as i8 as u8 as u64);
+                }
+            }
+        }
+        let x = (v as u128).wrapping_mul(KINV);
+        if x < (1u128 << 62) {
+            return (2u64 << 62) | x as u64;
+        }
+        let h = crate::rng::mix64((v as u128 >> 64) as u64 ^ crate::rng::mix64(v as u64));
+        (1u64 << 62) | UNREP | (h & (UNREP - 1))
+    }
+
+    /// `None` for the hash of a pattern that has no code.
+    pub fn try_decode(code: u64) -> Option<i128> {
+        match code >> 62 {
+            0 | 3 => Some(code as i64 as i128),
+            1 => {
+                if code & UNREP != 0 {
+                    return None;
+                }
+                let idx = ((code >> 8) & 0xffff_ffff) as usize;
+                let s = *SPECIALS.get(idx)?;
+                s.checked_add(code as u8 as i8 as i128)
+            }
+            _ => Some(((code & ((1u64 << 62) - 1)) as u128).wrapping_mul(K) as i128),
+        }
+    }
+
+    pub fn decode(code: u64) -> i128 {
+        try_decode(code).unwrap_or(0)
+    }
+
+    pub fn show_i(code: u64) -> String {
+        match try_decode(code) {
+            Some(v) => v.to_string(),
+            None => format!("<128-bit value without a code #{:x}>", code),
+        }
+    }
+    pub fn show_u(code: u64) -> String {
+        match try_decode(code) {
+            Some(v) => (v as u128).to_string(),
+            None => format!("<128-bit value without a code #{:x}>", code),
+        }
+    }
+
+    #[cfg(test)]
+    mod tests {
+        use super::*;
+        #[test]
+        fn round_trip() {
+            assert_eq!(K.wrapping_mul(KINV), 1);
+            let mut vals: Vec<i128> = vec![0, 1, -1, i128::MAX, i128::MIN, i64::MAX as i128, i64::MIN as i128, u64::MAX as i128, (u64::MAX as i128) + 1];
+            for s in SPECIALS {
+                for d in [-128i128, -1, 0, 1, 127] {
+                    if let Some(v) = s.checked_add(d) {
+                        vals.push(v);
+                    }
+                }
+            }
+            for x in [0u64, 1, 12345, (1 << 62) - 1, 0x1234_5678_9abc_def0 & ((1 << 62) - 1)] {
+                vals.push((x as u128).wrapping_mul(K) as i128);
+            }
+            for v in vals {
+                let c = encode(v);
+                assert_eq!(try_decode(c), Some(v), "{}", v);
+                assert_eq!(encode(decode(c)), c);
+            }
+            // a pattern without a code
+            let c = encode(0x1234_5678_9abc_def0_1234_5678_9abc_def0u128 as i128);
+            assert_eq!(try_decode(c), None);
+        }
+    }
+}
+
+/// (negative?, two's-complement pattern) of an integer leaf: one pair per mathematical integer.
+pub fn int_value(k: Kind, x: u64) -> Option<(bool, u128)> {
+    match k {
+        Kind::I8 | Kind::I16 | Kind::I32 | Kind::I64 => Some(((x as i64) < 0, x as i64 as i128 as u128)),
+        Kind::I128 => wide::try_decode(x).map(|v| (v < 0, v as u128)),
+        Kind::U128 => wide::try_decode(x).map(|v| (false, v as u128)),
+        Kind::U8 | Kind::U16 | Kind::U32 | Kind::U64 => Some((false, x as u128)),
+        _ => None,
+    }
+}
+
+/// The leaf of kind `to` that denotes exactly the same number as `bits` of kind `from`, if there is
+/// one. Used when a record's leaves are overwritten and the writer stored a component under
+/// another number type than the model's (an `f32` as `f64`, a small `i128` as `i64`).
+pub fn convert_num(from: Kind, bits: u64, to: Kind) -> Option<u64> {
+    if from == to {
+        return Some(bits);
+    }
+    match (from, to) {
+        (Kind::F32, Kind::F64) => Some((f32::from_bits(bits as u32) as f64).to_bits()),
+        (Kind::F64, Kind::F32) => {
+            let x = f64::from_bits(bits);
+            let y = x as f32;
+            if (y as f64).to_bits() == bits {
+                Some(y.to_bits() as u64)
+            } else {
+                None
+            }
+        }
+        _ => {
+            let (neg, pat) = int_value(from, bits)?;
+            int_value(to, 0)?;
+            let (lo, hi): (i128, u128) = match to {
+                Kind::I8 => (i8::MIN as i128, i8::MAX as u128),
+                Kind::I16 => (i16::MIN as i128, i16::MAX as u128),
+                Kind::I32 => (i32::MIN as i128, i32::MAX as u128),
+                Kind::I64 => (i64::MIN as i128, i64::MAX as u128),
+                Kind::I128 => (i128::MIN, i128::MAX as u128),
+                Kind::U8 => (0, u8::MAX as u128),
+                Kind::U16 => (0, u16::MAX as u128),
+                Kind::U32 => (0, u32::MAX as u128),
+                Kind::U64 => (0, u64::MAX as u128),
+                _ => (0, u128::MAX),
+            };
+            let fits = if neg { (pat as i128) >= lo } else { pat <= hi };
+            if !fits {
+                return None;
+            }
+            Some(match to {
+                Kind::I128 | Kind::U128 => wide::encode(pat as i128),
+                Kind::I8 | Kind::I16 | Kind::I32 | Kind::I64 => pat as i128 as i64 as u64,
+                _ => pat as u64,
+            })
+        }
     }
 }
 
@@ -198,9 +383,11 @@ impl Node {
                     Kind::F32 => write!(s, "{:?}f32#{:08x}", f32::from_bits(*bits as u32), *bits as u32),
                     Kind::F64 => write!(s, "{:?}f64#{:016x}", f64::from_bits(*bits), bits),
                     Kind::Bool => write!(s, "{}", *bits != 0),
-                    Kind::I8 | Kind::I16 | Kind::I32 | Kind::I64 | Kind::I128 => {
+                    Kind::I8 | Kind::I16 | Kind::I32 | Kind::I64 => {
                         write!(s, "{}{}", *bits as i64, kind.name())
                     }
+                    Kind::I128 => write!(s, "{}i128", wide::show_i(*bits)),
+                    Kind::U128 => write!(s, "{}u128", wide::show_u(*bits)),
                     _ => write!(s, "{}{}", bits, kind.name()),
                 };
             }
